@@ -653,3 +653,78 @@ def cycle_cases(moddir):
         modes = "".join("<xsl:template match='r' mode='m%d'><xsl:apply-templates select='.' mode='m%d'/></xsl:template>" % (k, k % n + 1) for k in range(1, n + 1))
         out.append(("cycle:apply-templates-modes:%d" % n, sty("<xsl:template match='/'><xsl:apply-templates select='r' mode='m1'/></xsl:template>" + modes), src, "error"))
     return out
+
+
+# ---------------------------------------------------------------------------------------------------------------------
+# long substituted texts in error messages; URI bases x references
+
+MESSAGE_LENGTHS = (0, 1, 1023, 1024, 1025, 3000, 70000)
+
+
+def long_message_cases():
+    """inputs whose error / warning message quotes a text taken from the input, for each length of that text -> list of (key, stylesheet, source)"""
+    out = []
+    src = "<r><i>1</i></r>"
+    for n in MESSAGE_LENGTHS:
+        t = ("n" * n) if n else ""
+        q = t if t else "x"          # where an empty token would change the construct
+        ns = " xmlns:ext='urn:ext'"
+        trig = {
+            "unknown-function": sty("<xsl:template match='/'><o><xsl:value-of select='%s(1)'/></o></xsl:template>" % q),
+            "undeclared-prefix-xpath": sty("<xsl:template match='/'><o><xsl:value-of select='%s:x'/></o></xsl:template>" % q),
+            "undefined-variable": sty("<xsl:template match='/'><o><xsl:value-of select='$%s'/></o></xsl:template>" % q),
+            "expected-but-found": sty("<xsl:template match='/'><o><xsl:value-of select=\"concat('a' %s)\"/></o></xsl:template>" % q),
+            "expected-but-found-2": sty("<xsl:template match='/'><o><xsl:value-of select=\"%s[1 %s\"/></o></xsl:template>" % (q, q)),
+            "extra-tokens": sty("<xsl:template match='/'><o><xsl:value-of select='1 %s %s'/></o></xsl:template>" % (q, q)),
+            "unknown-xsl-element": sty("<xsl:template match='/'><o><xsl:%s/></o></xsl:template>" % q),
+            "illegal-attribute": sty("<xsl:template match='/'><o><xsl:if test='1' %s='v'>x</xsl:if></o></xsl:template>" % q),
+            "illegal-attribute-value": sty("<xsl:template match='/'><o/></xsl:template>", top="<xsl:output method='%s'/>" % t),
+            "unknown-template": sty("<xsl:template match='/'><o><xsl:call-template name='%s'/></o></xsl:template>" % q),
+            "unknown-attribute-set": sty("<xsl:template match='/'><o xsl:use-attribute-sets='%s'/></xsl:template>" % q),
+            "include-missing": sty("<xsl:template match='/'><o/></xsl:template>", top="<xsl:include href='%s.xsl'/>" % t),
+            "import-missing": sty("<xsl:template match='/'><o/></xsl:template>", top="<xsl:import href='nodir/%s'/>" % t),
+            "document-missing": sty("<xsl:template match='/'><o><xsl:copy-of select=\"document('%s.xml')\"/></o></xsl:template>" % t),
+            "unknown-key": sty("<xsl:template match='/'><o><xsl:value-of select=\"key('%s', 1)\"/></o></xsl:template>" % q),
+            "unknown-decimal-format": sty("<xsl:template match='/'><o><xsl:value-of select=\"format-number(1, '#', '%s')\"/></o></xsl:template>" % q),
+            "bad-sort-data-type": sty("<xsl:template match='/'><o><xsl:for-each select='r/i'><xsl:sort data-type='%s'/>x</xsl:for-each></o></xsl:template>" % t),
+            "bad-number-level": sty("<xsl:template match='/'><o><xsl:number level='%s'/></o></xsl:template>" % t),
+            "bad-element-name-avt": sty("<xsl:template match='/'><o><xsl:element name='{\"%s:x\"}'/></o></xsl:template>" % q),
+            "bad-attribute-name": sty("<xsl:template match='/'><o><xsl:attribute name='%s %s'>v</xsl:attribute></o></xsl:template>" % (q, q)),
+            "message-text": sty("<xsl:template match='/'><o><xsl:message terminate='yes'>%s</xsl:message></o></xsl:template>" % t),
+            "unknown-encoding": sty("<xsl:template match='/'><o/></xsl:template>", top="<xsl:output encoding='%s'/>" % t),
+            "system-property": sty("<xsl:template match='/'><o><xsl:value-of select=\"system-property('%s:x')\"/></o></xsl:template>" % q),
+            "unknown-extension-function": sty("<xsl:template match='/'><o><xsl:value-of select='ext:%s(1)'/></o></xsl:template>" % q, extra_attrs=ns),
+            "unknown-extension-element": sty("<xsl:template match='/'><o><ext:%s/></o></xsl:template>" % q, extra_attrs=ns + " extension-element-prefixes='ext'"),
+            "mode-undeclared-prefix": sty("<xsl:template match='/'><o><xsl:apply-templates mode='%s:m'/></o></xsl:template>" % q),
+            "namespace-alias-prefix": sty("<xsl:template match='/'><o/></xsl:template>", top="<xsl:namespace-alias stylesheet-prefix='%s' result-prefix='%s'/>" % (q, q)),
+            "exclude-result-prefixes": sty("<xsl:template match='/'><o/></xsl:template>", extra_attrs=" exclude-result-prefixes='%s'" % q),
+            "bad-pattern": sty("<xsl:template match='%s('>x</xsl:template>" % q),
+            "duplicate-variable": sty("<xsl:template match='/'><o/></xsl:template>", top="<xsl:variable name='%s' select='1'/><xsl:variable name='%s' select='2'/>" % (q, q)),
+            "duplicate-template": sty("<xsl:template match='/'><o/></xsl:template><xsl:template name='%s'/><xsl:template name='%s'/>" % (q, q)),
+            "undeclared-xml-prefix": sty("<xsl:template match='/'><%s:o/></xsl:template>" % q),
+            "literal-not-terminated": sty("<xsl:template match='/'><o><xsl:value-of select=\"'%s\"/></o></xsl:template>" % t),
+        }
+        for nm, st in trig.items():
+            out.append(("%s:%d" % (nm, n), st, src))
+    return out
+
+
+URI_BASES = ["", "file:main.xsl", "app:main.xsl", "http://host", "http://host/", "http://a/b/c/d;p?q", "file:///tmp/x/main.xsl", "?q", "#f", "mailto:x", "a/b", "/a/b",
+             "http://a/b/c/d;p?q#frag", "HTTP://a/b/", "//auth/p", "file:", "x:", ":", "/", "file:/", "http://host?q", "http://host#f", "urn:isbn:1", "file:..", "file:../x", "../base/x"]
+URI_REFS = ["..", "../", "../../x", "./", "", "?q", "#f", "//auth", "/abs", "../../../../g", "g", "./g", "g/", "g?y", "g#s", "g;x", "../g", "../..", "../../", "./../g", "g/./h", "g/../h",
+            "http:g", "HTTP:g", "file:../x", ".", "...", "a/./b/../c", "/./g", "/../g", "g.", "..g", ".g", "g..", "x/..", "x/../", "../x/../../y/./z/..", "http://other/x",
+            "../" * 40 + "z", "./" * 40, "a/" * 20 + "../" * 25 + "b", "..?q", "../#f", "../../..", ".././../.", "%2e%2e/x", "..//x", "/..", "//", "///", "x/../../", ".../", "a/b/../../../c"]
+
+
+def uri_stylesheets():
+    """references through xsl:include / xsl:import / document() against base URIs given as system ids of stream inputs -> list of (key, stylesheet, source, stylesheet system id, source system id)"""
+    out = []
+    src = "<r><i>1</i></r>"
+    refs = ["../x.xsl", "..", "../", "../../x/y.xsl", "./x.xsl", "", "?q", "#f", "//auth/x.xsl", "/abs.xsl", "../" * 12 + "z.xsl"]
+    bases = ["", "file:main.xsl", "app:main.xsl", "http://host", "file:", "x:", "main.xsl", "file:///nonexistent/dir/main.xsl", "?q", "#f", "mailto:x"]
+    for b in bases:
+        for ref in refs:
+            out.append(("include:%s|%s" % (b, ref), sty("<xsl:template match='/'><o/></xsl:template>", top="<xsl:include href='%s'/>" % ref), src, b, b))
+            out.append(("import:%s|%s" % (b, ref), sty("<xsl:template match='/'><o/></xsl:template>", top="<xsl:import href='%s'/>" % ref), src, b, b))
+            out.append(("document:%s|%s" % (b, ref), sty("<xsl:template match='/'><o><xsl:copy-of select=\"document('%s')\"/><xsl:copy-of select=\"document('%s', /)\"/></o></xsl:template>" % (ref, ref)), src, b, b))
+    return out
